@@ -409,7 +409,21 @@ func init() {
 		return timeValue(fr, n)
 	})
 	reg("time.After", func(fr *frame, args []value) value { return &chanv{cap: 1} })
-	reg("time.NewTimer", func(fr *frame, args []value) value { panic(unsupported("time.NewTimer")) })
+	// a timer that never fires within the harness (same contract as the ticker below)
+	reg("time.NewTimer", func(fr *frame, args []value) value {
+		t := fr.i.prog.ImportedPackage("time").Type("Timer").Type()
+		st := zero(t).(structure)
+		ts := t.Underlying().(*types.Struct)
+		for k := 0; k < ts.NumFields(); k++ {
+			if ts.Field(k).Name() == "C" {
+				st[k] = &chanv{cap: 1}
+			}
+		}
+		var c value = st
+		return &c
+	})
+	reg("(*time.Timer).Stop", func(fr *frame, args []value) value { return true })
+	reg("(*time.Timer).Reset", func(fr *frame, args []value) value { return true })
 	// a ticker that never fires within the harness (time-driven branches of a select loop are
 	// outside the step being checked; stated as a bound where used)
 	reg("time.NewTicker", func(fr *frame, args []value) value {
